@@ -12,8 +12,11 @@
 (*            first filtered read on its field path                        *)
 (*   the fields of ONE treasure: content, createdAt, createdBy,            *)
 (*   modifiedAt, modifiedBy, expiration, deleted, key, fileName, flags,    *)
-(*   and alloc = the freshly allocated object itself (written by           *)
-(*   treasure.New, read by whoever dereferences the pointer)               *)
+(*   alloc = the freshly allocated object itself (written by               *)
+(*   treasure.New, read by whoever dereferences the pointer), and          *)
+(*   body = the bytes a ByteArray content points to (written by whoever    *)
+(*   built them, e.g. swamp.wrapMsgpackBody, before the setter stores the  *)
+(*   slice; read by whoever looks into the slice a getter returned)        *)
 (* Locks                                                                   *)
 (*   bk / ib / wb   the RWMutex of the three beacons                       *)
 (*   bsm / bm       swamp.bucketsMu / the bucket's RWMutex                 *)
@@ -25,6 +28,9 @@
 (*                  the treasure pointer from a LOCKED look-up holds it    *)
 (*                  shared for its field accesses; a path that got the     *)
 (*                  pointer from an unlocked walk over the map does not    *)
+(*   cpub           like pub, for the memory a content pointer leads to:   *)
+(*                  ordered with its readers only if setter and getter     *)
+(*                  synchronise (i.e. not under SetterNoLock)              *)
 (*   rv             strict design only: the lock that makes a record       *)
 (*                  update / a record snapshot one unit (CommittedRead)    *)
 (*                                                                         *)
@@ -77,6 +83,9 @@ Pub(p) == IF p THEN {L("pub", "R")} ELSE {}
 RvR == IF "Fieldwise" \in Dev THEN {} ELSE {Sp("rv", "R")}
 RvW == IF "Fieldwise" \in Dev THEN {} ELSE {Sp("rv", "W")}
 TW == IF "SetterNoLock" \in Dev THEN {} ELSE {L("t", "W")}
+\* a reader that is not under the record's guard sees the bytes behind the content pointer ordered after their
+\* initialisation only through the setter's / getter's lock
+CPubR == IF "SetterNoLock" \in Dev THEN {} ELSE {L("cpub", "R")}
 
 \* a getter call: t.mu.RLock around one field
 G(fn, f, extra) == A(fn, {f}, "R", {L("t", "R")} \cup extra)
@@ -124,7 +133,8 @@ IndexUpdate ==
 BucketNotify(fn) ==
   << A("swamp." \o fn, {"bktreg"}, "R", {L("bsm", "R"), Sp("g", "W")}),
      A("bucket.OnUpdate", {"bkt"}, "W", {Sp("bm", "W"), Sp("g", "W")}),
-     A("treasure.GetContentByteArray", {"content"}, "R", {L("t", "R"), Sp("bm", "W"), Sp("g", "W"), L("pub", "R")}) >>
+     A("treasure.GetContentByteArray", {"content"}, "R", {L("t", "R"), Sp("bm", "W"), Sp("g", "W"), L("pub", "R")}),
+     A("bucket.extractKey", {"body"}, "R", {Sp("bm", "W"), Sp("g", "W"), L("cpub", "R")}) >>
 
 \* SaveFunction on a treasure that is already indexed
 SaveExisting ==
@@ -153,7 +163,8 @@ DeleteSteps ==
 IndexRead(pub) ==
   << A("beacon.GetManyFromOrderPosition", {"idx"}, "R", {Sp("ib", "R")}), GC("treasure.GetCreatedAt", "createdAt", "R"),
      GC("treasure.GetModifiedAt", "modifiedAt", "R"), GC("treasure.GetExpirationTime", "expiration", "R"),
-     A("gateway.GetByIndex", {"alloc"}, "R", Pub(pub)), A("gateway.GetByIndexStream", {"alloc"}, "R", Pub(pub)) >> \o Snapshot(pub)
+     A("gateway.GetByIndex", {"alloc"}, "R", Pub(pub)), A("gateway.GetByIndexStream", {"alloc"}, "R", Pub(pub)),
+     A("gateway.GetByIndexStream", {"body"}, "R", CPubR) >> \o Snapshot(pub)
 
 MapEsc == "MapEscape" \in Dev
 Cold == "ColdBuild" \in Dev
@@ -196,7 +207,11 @@ Path(n) ==
               A("beacon.CloneUnorderedTreasures", Fields \ {"flags"}, "R",
                 (IF "CloneOrder" \in Dev THEN {Sp("bk", "W")} ELSE {}) \cup {Sp("g", "W"), L("pub", "R")}),
               A("bucket.BuildEquality", {"bkt"}, "W", {L("bm", "W")}),
-              A("bucket.DrainPending", {"bkt"}, "W", {L("bm", "W")}),
+              \* the operations buffered during the build carry LIVE treasures: their bodies are decoded by the builder,
+              \* which holds neither their guards nor anything the writers hold
+              A("bucket.DrainPending", {"bkt"}, "W", {Sp("bm", "W")}),
+              A("treasure.GetContentByteArray", {"content"}, "R", {L("t", "R"), Sp("bm", "W"), L("pub", "R")}),
+              A("bucket.extractKey", {"body"}, "R", {Sp("bm", "W")} \cup CPubR),
               A("bucket.LookupEqual", {"bkt"}, "R", {L("bm", "R")}) >> \o Snapshot(TRUE)
     [] n = "bucket_warm" ->
            << A("swamp.GetOrBuildBucket", {"bktreg"}, "R", {L("bsm", "R")}), A("bucket.LookupEqual", {"bkt"}, "R", {L("bm", "R")}) >> \o Snapshot(TRUE)
@@ -208,6 +223,7 @@ Path(n) ==
                           \o << GG("treasure.GetCreatedAt", "createdAt"), GG("treasure.GetCreatedBy", "createdBy"), GG("treasure.GetModifiedAt", "modifiedAt"),
                                 GG("treasure.GetModifiedBy", "modifiedBy"), GG("treasure.GetExpirationTime", "expiration") >>
     [] n = "patch"     -> << Lookup, GG("treasure.GetContentType", "content"), GG("treasure.GetContentByteArray", "content"),
+                             A("swamp.wrapMsgpackBody", {"body"}, "W", {Sp("g", "W"), L("cpub", "W")}),
                              S("treasure.SetContentByteArray", {"content"}) >> \o SaveExisting
     [] n = "del"       -> << A("beacon.IsExists", {"keymap"}, "R", {L("bk", "R")}) >> \o DeleteSteps
     [] n = "shift"     -> << Lookup, A("treasure.Clone", Fields \ {"flags"}, "R", {Sp("g", "W"), L("pub", "R")}) >> \o DeleteSteps
